@@ -500,6 +500,12 @@ func (env *SpecEnv) resolveType(e ast.Expr) (types.Type, error) {
 		if x.Len == nil {
 			return types.NewSlice(t), nil
 		}
+	case *ast.ChanType:
+		t, err := env.resolveType(x.Value)
+		if err != nil {
+			return nil, err
+		}
+		return types.NewChan(types.SendRecv, t), nil
 	case *ast.MapType:
 		k, err := env.resolveType(x.Key)
 		if err != nil {
@@ -811,13 +817,19 @@ func (env *SpecEnv) ghostApp(g *GhostFunc, c *ast.CallExpr) (*Val, error) {
 	}
 	var sorts []string
 	var args []Term
+	genv := env
+	if gp := env.fr.vc.eng.spkgs[g.Pkg]; gp != nil && gp != env.pkg {
+		ne := *env
+		ne.pkg = gp
+		genv = &ne
+	}
 	for i, p := range g.Params {
 		pe, err := parseTypeExpr(p)
 		if err != nil {
 			return nil, err
 		}
 		var s Sort = SInt
-		t, err := env.resolveType(pe)
+		t, err := genv.resolveType(pe)
 		if err != nil {
 			return nil, err
 		}
@@ -842,7 +854,7 @@ func (env *SpecEnv) ghostApp(g *GhostFunc, c *ast.CallExpr) (*Val, error) {
 		if err != nil {
 			return nil, err
 		}
-		rt, err = env.resolveType(re)
+		rt, err = genv.resolveType(re)
 		if err != nil {
 			return nil, err
 		}
